@@ -101,6 +101,8 @@ ResetQueued == {k \in Keys : rec[k].inSlab /\ rec[k].resetAt}
 RemoteResetPending == {k \in Keys : rec[k].inSlab /\ rec[k].isPendingAccept /\ IsRemoteResetSt(rec[k].state)}
 \* (S) the counters are the sizes of the sets they stand for
 InvCounters == CountersConsistent
+\* ... on a live connection (holds since the two counter fixes in /repo; after the connection ended nobody looks at the counters)
+InvCountersAlive == (~cn.connErr /\ ~cn.dropped) => CountersConsistent
 \* (G) ... the concurrency counter always is; the two reset counters can only be too HIGH (they leak upwards)
 InvCountersWeak == /\ cn.numRecv = Cardinality(Counted)
                    /\ cn.numLocalReset >= Cardinality(ResetQueued)
